@@ -36,39 +36,70 @@ def run(ctx, rep):
     # (b) Montgomery
     r = literals.const_value(db, 'swiftness_commitment::table::decommit::MONTGOMERY_R')
     rep.ob('C05.montgomery', 'literal', r == pow(2, 256, P), f'MONTGOMERY_R = {hex(r) if r is not None else None}; 2^256 mod p = {hex(pow(2, 256, P))}', td.loc(), cfg)
+    # the cells handed to the row hashing are the decommitted values, each multiplied by MONTGOMERY_R exactly once. The
+    # per-cell conversion `collect(map(iter(values), |v| v * R))` may sit in table_decommit (the converted vector is the
+    # argument) or at the top of generate_vector_queries (the raw values are the argument and every read below goes
+    # through the converted vector).
     T = exprtree.Trees(db, td)
-    okc = False
-    shown = ''
-    for cp in db.closure_creations(td):
-        cf = db.fns[cp]
-        Tc = exprtree.Trees(db, cf)
-        t = Tc.local(0)
-        shown = exprtree.show(t)
-        okc = isinstance(t, tuple) and t[0] == 'mul' and ('val', r) in t[1:] and ('arg', 2) in t[1:]
-    rep.ob('C05.montgomery', 'closure', okc, f'per-cell conversion closure returns {shown[:100]} (expected cell * MONTGOMERY_R)', td.loc(), cfg)
-    oka = False
+    gv = db.fn(GEN_VECTOR_QUERIES, 'C05')
+
+    def conversion(tr, src_ok):
+        """is `tr` = collect(map(iter(SRC), closure)) with closure = cell * MONTGOMERY_R (either order)? returns SRC"""
+        if not (isinstance(tr, tuple) and tr and tr[0] == 'collect' and len(tr) == 2):
+            return None
+        m = tr[1]
+        if not (isinstance(m, tuple) and m[0] == 'map' and len(m) == 3 and isinstance(m[2], tuple) and m[2][0] == 'closure'):
+            return None
+        cf = db.fns.get(m[2][1])
+        if cf is None:
+            return None
+        body = exprtree.Trees(db, cf).local(0)
+        if not (isinstance(body, tuple) and body[0] == 'mul' and ('val', r) in body[1:] and ('arg', 2) in body[1:]):
+            return None
+        src = m[1]
+        while isinstance(src, tuple) and src[0] in ('iter', 'into_iter') and len(src) == 2:
+            src = src[1]
+        return src if src_ok(src) else None
+    where = []
+    call = None
     for bi, t in td.calls():
         if t['f'].get('resolved') == GEN_VECTOR_QUERIES:
-            a = [exprtree.show(T.operand(x)) for x in t['args']]
-            oka = a[0] == 'a2' and 'a3.values' in a[1] and 'map(' in a[1] and 'closure' in a[1] and a[2].startswith('a1.config.n_columns') is False
-            oka = a[0] == 'a2' and 'a3.values' in a[1] and 'map(' in a[1] and 'closure' in a[1]
-            if len(a) < 4:
-                rep.ob('C05.rows', 'signature', False, f'generate_vector_queries is called with {len(a)} arguments; the rule maps (queries, values, n_columns, is_verifier_friendly)', td.loc(t['line']), cfg)
-                continue
-            flag = a[3]
-            okf = all(ok for k_, ok, _, _ in common.friendly_selection(db) if k_ == 'table-flag')
-            rep.ob('C05.rows', 'friendly-flag', okf, f'is_bottom_layer_verifier_friendly = {flag[:160]}', td.loc(t['line']), cfg)
-            rep.ob('C05.montgomery', 'argument', oka, f'generate_vector_queries(queries={a[0]}, values={a[1][:110]}, ..)', td.loc(t['line']), cfg)
+            call = t
+    a = [T.operand(x) for x in call['args']] if call else []
+    if call is None or len(a) < 4:
+        rep.ob('C05.rows', 'signature', False, f'generate_vector_queries is called with {len(a)} arguments; the rule maps (queries, values, n_columns, is_verifier_friendly)', td.loc(), cfg)
+        return
+    shown_a = [exprtree.show(x) for x in a]
+    is_raw = lambda x: exprtree.show(x) == 'a3.values'
+    in_caller = conversion(a[1], is_raw) is not None
+    raw_arg = is_raw(a[1])
+    if in_caller:
+        where.append('table_decommit')
+    # conversions at the top of generate_vector_queries
+    Tg0 = exprtree.Trees(db, gv)
+    conv_local = None
+    for bi, t in gv.calls():
+        if t['f'].get('name') == 'collect' and not t['dest']['p']:
+            if conversion(Tg0.local(t['dest']['l']), lambda x: x == ('arg', 2)) is not None:
+                conv_local = Tg0.local(t['dest']['l'])
+                where.append('generate_vector_queries')
+    okc = len(where) == 1 and (in_caller or raw_arg)
+    rep.ob('C05.montgomery', 'once', okc,
+           f'the decommitted values are converted (cell * MONTGOMERY_R) in {where or "no place"}; generate_vector_queries receives '
+           f'{shown_a[1][:90]} (expected: exactly one conversion of a3.values)', td.loc(call['line']), cfg)
+    rep.ob('C05.montgomery', 'argument', shown_a[0] == 'a2', f'generate_vector_queries(queries={shown_a[0]}, ..)', td.loc(call['line']), cfg)
+    okf = all(ok for k_, ok, _, _ in common.friendly_selection(db) if k_ == 'table-flag')
+    rep.ob('C05.rows', 'friendly-flag', okf, f'is_bottom_layer_verifier_friendly = {shown_a[3][:160]}', td.loc(call['line']), cfg)
     # (c) row selection
     gv = db.fn(GEN_VECTOR_QUERIES, 'C05')
     tys = [gv.local_ty(k) for k in range(1, gv.arg_count + 1)]
-    sig_ok = gv.arg_count == 4 and tys[0].startswith('&') and 'Felt' in tys[0] and tys[1].startswith('&') and 'Felt' in tys[1] and \
-        tys[2] in ('u32', 'usize', 'u64') and tys[3] == 'bool'
+    sig_ok = gv.arg_count == 4 and tys[0].startswith('&') and 'Felt' in tys[0] and 'Felt' in tys[1] and \
+        (tys[1].startswith('&') or tys[1].startswith('alloc::vec::Vec<')) and tys[2] in ('u32', 'usize', 'u64') and tys[3] == 'bool'
     if not sig_ok:
         rep.ob('C05.rows', 'signature', False, f'generate_vector_queries{tuple(tys)}: the rule maps (queries: &[Felt], values: &[Felt], '
                'n_columns: integer, is_verifier_friendly: bool); with another signature the row walk cannot be decided', gv.loc(), cfg)
     else:
-        rows(db, rep, gv, cfg)
+        rows(db, rep, gv, cfg, conv_local)
     hashsites.check_site(ctx, rep, 'C05.hash', GEN_VECTOR_QUERIES, 'row hash')
 
 
@@ -87,7 +118,7 @@ def _rewrite(t, f):
     """bottom-up rewrite of a def-use tree"""
     if isinstance(t, tuple):
         t = tuple(_rewrite(x, f) if k else x for k, x in enumerate(t))
-        return f(t)
+        return f(t) if t else t
     if isinstance(t, dict):
         return {k: _rewrite(v, f) for k, v in t.items()}
     return t
@@ -98,7 +129,7 @@ def _is_range0(t, end_ok):
         t[3].get('start') == ('val', 0) and end_ok(t[3].get('end'))
 
 
-def rows(db, rep, gv, cfg):
+def rows(db, rep, gv, cfg, converted=None):
     """generate_vector_queries(queries=a1, values=a2, n_columns=a3, friendly=a4): Query i = (queries[i], H(row i)) with
     row i = values[i*n_columns .. (i+1)*n_columns]. The body that builds the Query (the function itself or the closure
     it maps over the queries) is rewritten into the function's own terms with a symbolic row index I:
@@ -124,12 +155,15 @@ def rows(db, rep, gv, cfg):
     qf, qa = qsite
     Tq = Ts[qf.path]
     flq = dataflow.Flow(db, qf)
-    A1, A2, A3 = ('arg', 1), ('arg', 2), ('arg', 3)
+    A1, A3 = ('arg', 1), ('arg', 3)
+    # the vector the rows are read from: the `values` parameter, or -- when generate_vector_queries converts the cells
+    # itself -- the converted vector (a read of the raw parameter is then not a read of a row)
+    A2 = ('VALUES',) if converted is not None else ('arg', 2)
     QI = ('proj', A1, ('idx', I))
 
     def strip_checked(t):
         # (a op b).0 of overflow-checked arithmetic, and the Range end len(a1)
-        if t[0] == 'proj' and t[2] == '0' and isinstance(t[1], tuple) and t[1][0] in ('add', 'mul', 'sub'):
+        if len(t) == 3 and t[0] == 'proj' and t[2] == '0' and isinstance(t[1], tuple) and t[1] and t[1][0] in ('add', 'mul', 'sub'):
             return t[1]
         return t
     form = None
@@ -170,13 +204,16 @@ def rows(db, rep, gv, cfg):
             if t[0] == 'proj' and t[1] == A1 and isinstance(t[2], str) and t[2].isdigit() and int(t[2]) < len(ups):
                 return _rewrite(ups[int(t[2])], strip_checked)
             return t
+    def to_root2(t):
+        t = to_root(t)
+        return ('VALUES',) if converted is not None and t == converted else t
     rep.note('row_walk_form', form)
     if form is None:
         rep.ob('C05.rows', 'row-walk', False, f'the Query is built in {qf.path.split("::")[-1]} mapped over {walk_desc}: not a recognised walk over '
                'the queries (loop over 0..len, enumerate, or zip with chunks of n_columns)', qf.loc(), cfg)
         return
     rep.ob('C05.rows', 'row-walk', True, f'{form}: {walk_desc}', qf.loc(), cfg)
-    R = lambda op: _rewrite(Tq.operand(op), to_root)
+    R = lambda op: _rewrite(Tq.operand(op), to_root2)
 
     def is_row(t):
         if t == CHUNK:
@@ -201,7 +238,7 @@ def rows(db, rep, gv, cfg):
     sl = []
     for bi, t in qf.calls():
         if t['f'].get('name') == 'index' and len(t['args']) == 2:
-            whole = _rewrite(('proj', Tq.operand(t['args'][0]), ('idx', Tq.operand(t['args'][1]))), to_root)
+            whole = _rewrite(('proj', Tq.operand(t['args'][0]), ('idx', Tq.operand(t['args'][1]))), to_root2)
             if whole[1] in (A2, CHUNK):
                 sl.append(whole)
     for b in qf.blocks:       # values[i] as a place projection (no Index call for arrays/slices by usize)
@@ -209,7 +246,7 @@ def rows(db, rep, gv, cfg):
             if st['k'] == 'assign' and st['rv']['k'] in ('use', 'ref'):
                 pl = st['rv'].get('place') or op_place(st['rv'].get('a') or {})
                 if pl and any(isinstance(e, dict) and 'i' in e for e in pl['p']):
-                    whole = _rewrite(Tq.place(pl), to_root)
+                    whole = _rewrite(Tq.place(pl), to_root2)
                     if isinstance(whole, tuple) and whole[0] == 'proj' and whole[1] in (A2, CHUNK):
                         sl.append(whole)
     bad_sl = [exprtree.show(x)[:90] for x in sl if not (is_row(x) or is_cell(x))]
@@ -218,7 +255,7 @@ def rows(db, rep, gv, cfg):
            f'{len(sl)} reads of values, all of them row I (values[I*n .. (I+1)*n] or the I-th chunk) or its single cell' if have_row and not bad_sl else
            f'reads of values that are not row I: {bad_sl[:3]} (row read found: {have_row})', qf.loc(), cfg)
     # single-column bypass: a comparison of n_columns with 1 selects the bare cell
-    okb = any({_rewrite(a, to_root), _rewrite(c, to_root)} == {A3, ('val', 1)} for a, c in _eq_tests(qf, Tq))
+    okb = any({_rewrite(a, to_root2), _rewrite(c, to_root2)} == {A3, ('val', 1)} for a, c in _eq_tests(qf, Tq))
     rep.ob('C05.rows', 'single-column-bypass', okb, 'rows of single-column tables are used unhashed (n_columns == 1 test)', qf.loc(), cfg)
     pm = [(f, t) for f in bs for _, t in f.calls() if (t['f'].get('resolved') or '').endswith('poseidon_hash_many')]
     arg = R(pm[0][1]['args'][0]) if len(pm) == 1 and pm[0][0] is qf else None
